@@ -91,6 +91,24 @@ func GetRuntimeType(value interface{}) Type {
 	}
 }
 
+// acceptsInt reports whether an int is acceptable where t is expected: int
+// itself, an optional int, or a union with an int member.
+func acceptsInt(t Type) bool {
+	switch tt := t.(type) {
+	case IntType:
+		return true
+	case OptionalType:
+		return acceptsInt(tt.InnerType)
+	case UnionType:
+		for _, member := range tt.Types {
+			if acceptsInt(member) {
+				return true
+			}
+		}
+	}
+	return false
+}
+
 // CheckType validates that a value matches an expected type annotation
 func (tc *TypeChecker) CheckType(value interface{}, expectedType Type) error {
 	if expectedType == nil {
@@ -134,7 +152,7 @@ func (tc *TypeChecker) CheckType(value interface{}, expectedType Type) error {
 	// to float64. Without this, an `int` field rejects the perfectly ordinary
 	// body {"id": 1} with "expected int, got float". A value with a fractional
 	// part is still a mismatch.
-	if _, wantInt := expectedType.(IntType); wantInt {
+	if acceptsInt(expectedType) {
 		if f, ok := value.(float64); ok && f == math.Trunc(f) && !math.IsInf(f, 0) {
 			return nil
 		}
